@@ -98,7 +98,8 @@ theorem include_textual_cases (fs : Files) (pre post ls : List Str) (l f : Str)
   · exact .inr (.inr ⟨front_diag h1, front_internal h2⟩)
 
 /-- Strong form: the equality holds as soon as the parse-and-expand stage `front` ends in `internal` on
-neither side (a later `internal`, e.g. an address above 65535, is the same on both sides). -/
+neither side (a later `internal` -- after fix 0addc5e only the one of Props/C13.lean `C13_witness` is known --
+is the same on both sides). -/
 theorem include_textual_strong (fs : Files) (pre post ls : List Str) (l f : Str)
     (hl : IsInclude l f) (hf : fs.get? f = some ls)
     (hne : front fs (pre ++ [l] ++ post) ≠ .internal)
